@@ -887,3 +887,151 @@ _run_before_unitcand = run
 def run(chk):       # noqa: F811
     _run_before_unitcand(chk)
     rule_unit_candidates(chk, get_index(), chk.tier if hasattr(chk, 'tier') else 'quick')
+
+
+# ---------------------------------------------------------------------------------------------------------------
+# C12.compound: the currency parser splits one extracted compound ("10 dollars 30 cents 5 euros") into the money amounts it
+# contains.  BaseCurrencyParser.__merge_compound_unit (with __resolve_text, __create_currency_result, __get_number_value,
+# __check_units_string_contains and DictionaryUtility.bind_units_string) is interpreted on every sequence of at most four items
+# of six kinds - main unit A / its fraction unit a / main unit B / its fraction b / bare number / unknown unit - laid out on
+# fixed spans.  The inner unit parser is a stub that answers each item with its own span, unit and number.  Required: the
+# amounts are pairwise disjoint, each runs from the start of one item to the end of a later (or the same) item, and starts at
+# a currency item.
+
+COMPOUND_KINDS = {
+    'A': ('cur', 'Dollar'), 'a': ('cur', 'Cent'), 'B': ('cur', 'Euro'), 'b': ('cur', 'Centime'), 'N': ('num', None),
+    'U': ('cur', 'Quux'),
+}
+
+
+def compound_run(idx, cls, fn, seq, er_cls, pr_cls, uv_cls, cur_type, num_type):
+    items = []
+    pos = 0
+    words = []
+    for k in seq:
+        w = k * 2
+        items.append((pos, pos + len(w) - 1, w))
+        words.append(w)
+        pos += len(w) + 1
+    text = ' '.join(words)
+    bias = 7            # the compound sits at offset 7 of the query
+
+    def mk_item(i):
+        s, e, w = items[i]
+        kind, unit = COMPOUND_KINDS[seq[i]]
+        o = Obj(er_cls, {})
+        o.attrs.update({'start': s + bias, 'length': e - s + 1, 'text': w, 'type': cur_type if kind == 'cur' else num_type,
+                        'data': None, 'meta_data': None})
+        return o, kind, unit
+    made = [mk_item(i) for i in range(len(seq))]
+
+    def inner_parse(it, a, k):
+        er = a[0]
+        for o, kind, unit in made:
+            if o is er:
+                pr = Obj(pr_cls, {})
+                pr.attrs.update({'start': o.attrs['start'], 'length': o.attrs['length'], 'text': o.attrs['text'],
+                                 'type': o.attrs['type'], 'data': None, 'meta_data': None,
+                                 'resolution_str': o.attrs['text']})
+                if kind == 'cur':
+                    pr.attrs['value'] = Obj(uv_cls, {'number': '3', 'unit': unit})
+                else:
+                    pr.attrs['value'] = '5'
+                return pr
+        it.fail(None, 'the inner parser is asked about something that is not an item of the compound')
+
+    def d(**kw):
+        return {k: (k, v) for k, v in kw.items()}
+    cfg = Native({'currency_name_to_iso_code_map': d(Dollar='USD', Euro='EUR'),
+                  'currency_fraction_code_list': d(Cent='CENT', Centime='CENTIME'),
+                  'currency_fraction_mapping': d(USD='CENT|PENNY', EUR='CENTIME'),
+                  'currency_fraction_num_map': d(Cent=100, Centime=100),
+                  'culture_info': Native({'format': native(lambda it2, a, k: repr(a[0]))}, 'culture info')}, 'config')
+    selfo = Obj(cls, {'config': cfg, 'number_with_unit_parser': Native({'parse': native(inner_parse)}, 'unit parser')})
+    comp = Obj(er_cls, {})
+    comp.attrs.update({'start': bias, 'length': len(text), 'text': text, 'type': cur_type, 'data': [o for o, _, _ in made],
+                       'meta_data': None})
+    it = Interp(idx, where='%s.%s' % (cls.name, fn.name), budget=400000)
+    ret = it.call_function(FuncRef(cls.mod, fn, cls), [comp], {}, None, selfobj=selfo)
+    vals = ret.attrs.get('value') if isinstance(ret, Obj) else None
+    if not isinstance(vals, list):
+        raise AnalysisError('%s.%s does not return a result whose value is the list of amounts' % (cls.name, fn.name))
+    out = []
+    for v in vals:
+        s, l, t = v.attrs.get('start'), v.attrs.get('length'), v.attrs.get('text')
+        if not isinstance(s, int) or not isinstance(l, int):
+            raise AnalysisError('%s.%s returns an amount without integer start/length' % (cls.name, fn.name))
+        out.append((s - bias, s - bias + l - 1, t))
+    return text, items, out
+
+
+def compound_verdicts(seq, text, items, out):
+    vs = []
+    starts = {s: i for i, (s, e, w) in enumerate(items)}
+    ends = {e: i for i, (s, e, w) in enumerate(items)}
+    for (s, e, t) in out:
+        if s not in starts or e not in ends or ends[e] < starts[s]:
+            vs.append(('boundaries', 'amount [%d,%d] does not run from the start of an item to the end of an item' % (s, e)))
+            continue
+        if COMPOUND_KINDS[seq[starts[s]]][0] != 'cur':
+            vs.append(('head', 'amount [%d,%d] starts at a bare number' % (s, e)))
+        if t is not None and t != text[s:e + 1]:
+            vs.append(('text', 'amount [%d,%d] has text %r, its span addresses %r' % (s, e, t, text[s:e + 1])))
+    for i in range(len(out)):
+        for j in range(i + 1, len(out)):
+            if overlap(out[i][:2], out[j][:2]):
+                vs.append(('overlap', 'amounts [%d,%d] and [%d,%d] share an item' % (out[i][0], out[i][1], out[j][0], out[j][1])))
+    return vs
+
+
+def rule_compound(chk, idx, tier):
+    rid = 'C12.compound'
+    chk.rule(rid, 'the money amounts the currency parser splits a compound into are pairwise disjoint runs of whole items, each '
+                  'starting at a currency item', floor=4, control=True)
+    cls = idx.cls('recognizers_number_with_unit.number_with_unit.parsers.BaseCurrencyParser')
+    er_cls = idx.cls('recognizers_text.extractor.ExtractResult')
+    pr_cls = idx.cls('recognizers_text.parser.ParseResult')
+    from ..ointerp import NTType
+    uv_cls = NTType('UnitValue', ['number', 'unit'])
+    consts = idx.cls('recognizers_number_with_unit.number_with_unit.constants.Constants')
+    fn = cls.methods.get('__merge_compound_unit') if cls else None
+    if fn is None or pr_cls is None or consts is None:
+        raise AnalysisError('anchor vanished: BaseCurrencyParser.__merge_compound_unit / ParseResult / UnitValue / Constants')
+    cur, num = consts.attrs.get('SYS_UNIT_CURRENCY'), consts.attrs.get('SYS_NUM')
+    if not all(isinstance(x, ast.Constant) and isinstance(x.value, str) for x in (cur, num)):
+        raise AnalysisError('anchor vanished: Constants.SYS_UNIT_CURRENCY / SYS_NUM')
+    chk.consulted(cls.mod.path)
+    maxlen = 4 if tier == 'quick' else 5
+    first, runs = {}, 0
+    for n in range(1, maxlen + 1):
+        for seq in itertools.product('AaBbNU', repeat=n):
+            runs += 1
+            try:
+                text, items, out = compound_run(idx, cls, fn, seq, er_cls, pr_cls, uv_cls, cur.value, num.value)
+                vs = compound_verdicts(seq, text, items, out)
+            except PyExc as ex:
+                vs = [('raises', str(ex))]
+                text = ' '.join(k * 2 for k in seq)
+            for kind, what in vs:
+                if kind not in first or len(seq) < len(first[kind][0]):
+                    first[kind] = (seq, text, what)
+    for kind in ('raises', 'boundaries', 'head', 'text', 'overlap'):
+        bad = first.get(kind)
+        chk.judge(bad is None, rid, cls.mod.path, 'BaseCurrencyParser.__merge_compound_unit [%s]' % kind,
+                  'never' if bad is None else 'happens', None if bad is None else
+                  'BaseCurrencyParser.__merge_compound_unit: on the compound %r (AA/BB = main units, aa/bb = their fraction units, '
+                  'NN = bare number, UU = unknown unit): %s' % (bad[1], bad[2]), fn.lineno)
+    chk.observe('C12.compound: BaseCurrencyParser.__merge_compound_unit interpreted on %d item sequences up to %d items' % (runs, maxlen))
+    # positive control: amounts with a foreign boundary / sharing an item are recognised as such
+    ctl_items = [(0, 1, 'AA'), (3, 4, 'BB')]
+    v = compound_verdicts('AB', 'AA BB', ctl_items, [(0, 4, 'AA BB'), (3, 4, 'BB')])
+    v2 = compound_verdicts('AB', 'AA BB', ctl_items, [(0, 2, 'AA ')])
+    chk.control(rid, any(k == 'overlap' for k, _ in v) and any(k == 'boundaries' for k, _ in v2))
+
+
+_run_before_compound = run
+
+
+def run(chk):       # noqa: F811
+    _run_before_compound(chk)
+    rule_compound(chk, get_index(), chk.tier if hasattr(chk, 'tier') else 'quick')
